@@ -423,15 +423,39 @@ def check_ecmp(prog, efv, cmp_order, r):
                 if rv and rv["r"] == "agg" and rv["k"] == "tuple" and len(rv["fields"]) >= 3:
                     fields = [strip(rend.operand(x, 30)) for x in rv["fields"]]
                     cs = []
-                    for fe in fields:
-                        c = classify_tokens(expr_tokens(prog, fe))
+                    for fe, fo in zip(fields, rv["fields"]):
+                        toks = expr_tokens(prog, fe)
+                        q = fo.get("c") or fo.get("m")
+                        if isinstance(fe, tuple) and fe and fe[0] == "tmp" and q is not None and not q.get("p"):
+                            # `a || b` / `a && b` written in place: a bool temporary assigned in several arms; its meaning is
+                            # what the arms compute and what they are conditioned on
+                            from ..cfg import flat_guards as _fg
+                            for db, dsi, dst in fv.defs().get(q["l"], []):
+                                if db not in fv.live:
+                                    continue
+                                if dsi == "t":
+                                    toks |= expr_tokens(prog, rend.call_expr(dst, 30, db))
+                                else:
+                                    toks |= expr_tokens(prog, rend.rvalue(dst["rv"], 30))
+                                for g, l_, h_ in _fg(fv, db):
+                                    toks |= expr_tokens(prog, g)
+                        c = classify_tokens(toks)
                         cs.append(c[0] if len(c) == 1 else "?")
                     tuples.append((fv, bi, cs))
+    if len(tuples) == 1 and tuples[0][0].key != efv.key:
+        # one closure builds the tuple and is called both for the best path and per path (`let tie_key = |p| (..)`): the two
+        # tuples agree by construction; the closure must be called from the body and from the take_while closure
+        ck = tuples[0][0].key
+        callers = [k2 for k2 in prog.with_closures(efv.key) if k2 != ck and any((c["f"].get("rkey") or c["f"].get("key")) == ck or
+                   (re.search(r"ops::(Fn|FnMut|FnOnce)::call", c["f"].get("name", "")) and ck in (c["f"].get("ga", "") + str(c["f"].get("rkey")))) for c in prog.ix[k2]["calls"])]
+        if len(callers) >= 2 or (callers and len(set(callers)) >= 1 and sum(1 for k2 in prog.with_closures(efv.key) for c in prog.ix[k2]["calls"]
+                                                                                if re.search(r"ops::(Fn|FnMut|FnOnce)::call", c["f"].get("name", ""))) >= 2):
+            tuples = [tuples[0], tuples[0]]
     if len(tuples) < 2:
         r.unanalysable("ecmp_paths: expected the key tuple and the per-path tuple, found %d tuple(s)" % len(tuples), efv.loc())
         return
     for fv, bi, cs in tuples:
-        which = "key" if fv.key == efv.key else "per-path"
+        which = "key" if (fv.key == efv.key or (fv, bi, cs) is tuples[0] and tuples[0] is tuples[1]) else "per-path"
         if "?" in cs:
             r.unanalysable("ecmp_paths %s tuple has an unrecognised component: %s" % (which, cs), fv.loc(bi))
         elif cs != want:
